@@ -407,9 +407,20 @@ class SheetBuilder:
             self.rows.append(row(type="send_message", message_text="c-no", include_if=inc, **{"from": r}))
             self.prog.append(guarded(lambda c, out: (fn(c), out.extend(["c-yes", "c-no"]))))
         elif column == "include_if":
-            # the planted cell IS the inclusion condition; its defined renderings are never "false"
+            # the planted cell IS the inclusion condition; its defined renderings are never the text "false" — but a native
+            # cell hands the OBJECT on, and a falsy object (the loop index 0) excludes the row (false alarm of the thorough
+            # tier corrected: the reference used to expect the row for `{@ i @}` in the first iteration)
             self.rows.append(row(type="send_message", message_text="inc", include_if=text))
-            self.prog.append(lambda c, out: (fn(c), out.append("inc")))
+            book_, sheet_ = self.book, self.sheet
+
+            def inc_step(c, out, text=text):
+                fn(c)
+                if text.startswith("{@") and text.endswith("@}") and "|" not in text and "~" not in text:
+                    obj = lookup_ref(book_, sheet_, text[2:-2].strip(), c)
+                    if obj is not MISSING and not isinstance(obj, str) and not obj:
+                        return
+                out.append("inc")
+            self.prog.append(inc_step)
         elif column == "loop-list":
             self.rows.append(row(type="begin_for", loop_variable="y", message_text=text, include_if=inc))
             self.rows.append(row(type="send_message", message_text="it {{ y }}"))
